@@ -8,7 +8,7 @@ import (
 
 func init() {
 	register(&CheckDef{ID: "C06", Level: "exploration", Engine: "A", Draw: drawC06,
-		Rule: "2-8 concurrent clients with pairwise different ClientHellos (a unique marker cipher each) and pairwise different HTTP/2 preambles, same or different peer addresses (including identical ip:port reused by a later connection), HTTP/1.1 keep-alive sequences and multiplexed HTTP/2 requests, some clients resetting or closing mid-session, handlers optionally parked at a yielding injector so that handlers of different connections overlap in every order. Oracle: every (tag -> JA3, JA4, HTTP/2 fingerprint) at the back-end equals the reference value of the tag's own connection. Race mode (-race build, four Ps, no parking inside the harness): the controller offers a weighted 'burst' action - every enabled delivery and client step in one step - so that goroutines of different connections run side by side; a race report whose two stacks both have a frame of fingerproxy is a violation (unsynchronised state shared between connections). Non-trivial: requests of >= 2 different connections reached the back-end. Distinct: distinct controller action-label sequences."})
+		Rule: "2-8 concurrent clients with pairwise different ClientHellos (a unique marker cipher each) and pairwise different HTTP/2 preambles, same or different peer addresses (including identical ip:port reused by a later connection), HTTP/1.1 keep-alive sequences and multiplexed HTTP/2 requests, some clients resetting or closing mid-session, handlers optionally parked at a yielding injector so that handlers of different connections overlap in every order. Oracle: every (tag -> JA3, JA4, HTTP/2 fingerprint) at the back-end equals the reference value of the tag's own connection. Race mode (-race build, four Ps, no parking inside the harness): the controller offers a weighted 'burst' action - every enabled delivery and client step in one step - so that goroutines of different connections run side by side; one request in flight per connection; a race report whose two stacks meet in the same function of fingerproxy is a violation (two connections executing the same code on unsynchronised shared state). Non-trivial: requests of >= 2 different connections reached the back-end. Distinct: distinct controller action-label sequences."})
 }
 
 type c06Aux struct {
@@ -39,7 +39,11 @@ func drawC06(t *rapid.T) *Case {
 				// it leaves behind must not show in anybody else's)
 				burst = rapid.IntRange(90, 400).Draw(t, "bigfpn")
 			}
-			sc := DrawH2Script(t, H2GenOpts{ClientID: ci, MaxReqs: 3, ExtraMax: 2, TailFrames: false, PrioBurst: burst})
+			maxReqs := 3
+			if raceMode() {
+				maxReqs = 1 // one request in flight per connection: what races is two connections
+			}
+			sc := DrawH2Script(t, H2GenOpts{ClientID: ci, MaxReqs: maxReqs, ExtraMax: 2, TailFrames: false, PrioBurst: burst})
 			// make the preamble unique too
 			sc.Groups[0] = append([]Frame{}, sc.Groups[0]...)
 			aux.Scripts[ci] = sc
